@@ -796,3 +796,132 @@ func (c *TermCtx) joinPieces(w int, pa, pb []piece) *Term {
 	}
 	return r
 }
+
+// Eval computes the value of t under a total assignment of its variables
+// (missing variables count as 0). Used to reuse solver models as witnesses.
+func Eval(t *Term, m map[string]uint64, memo map[*Term]uint64) uint64 {
+	if v, ok := memo[t]; ok {
+		return v
+	}
+	var r uint64
+	a := func(i int) uint64 { return Eval(t.Args[i], m, memo) }
+	b2u := func(b bool) uint64 {
+		if b {
+			return 1
+		}
+		return 0
+	}
+	switch t.Op {
+	case OpConst:
+		r = t.Val
+	case OpVar:
+		r = m[t.Name] & mask(t.W)
+		if t.W == 0 {
+			r = m[t.Name] & 1
+		}
+	case OpAdd:
+		r = a(0) + a(1)
+	case OpSub:
+		r = a(0) - a(1)
+	case OpMul:
+		r = a(0) * a(1)
+	case OpAnd:
+		r = a(0) & a(1)
+	case OpOr:
+		r = a(0) | a(1)
+	case OpXor:
+		r = a(0) ^ a(1)
+	case OpShl:
+		if y := a(1); y >= uint64(t.W) {
+			r = 0
+		} else {
+			r = a(0) << y
+		}
+	case OpLshr:
+		if y := a(1); y >= uint64(t.W) {
+			r = 0
+		} else {
+			r = a(0) >> y
+		}
+	case OpAshr:
+		sx := sext64(a(0), t.W)
+		if y := a(1); y >= uint64(t.W) {
+			if sx < 0 {
+				r = ^uint64(0)
+			}
+		} else {
+			r = uint64(sx >> y)
+		}
+	case OpUdiv:
+		if y := a(1); y == 0 {
+			r = ^uint64(0)
+		} else {
+			r = a(0) / y
+		}
+	case OpUrem:
+		if y := a(1); y == 0 {
+			r = a(0)
+		} else {
+			r = a(0) % y
+		}
+	case OpSdiv:
+		x, y := sext64(a(0), t.W), sext64(a(1), t.W)
+		if y == 0 {
+			if x < 0 {
+				r = 1
+			} else {
+				r = ^uint64(0)
+			}
+		} else {
+			r = uint64(x / y)
+		}
+	case OpSrem:
+		x, y := sext64(a(0), t.W), sext64(a(1), t.W)
+		if y == 0 {
+			r = uint64(x)
+		} else {
+			r = uint64(x % y)
+		}
+	case OpNot:
+		r = ^a(0)
+	case OpNeg:
+		r = -a(0)
+	case OpConcat:
+		r = a(0)<<uint(t.Args[1].W) | a(1)
+	case OpExtract:
+		r = a(0) >> uint(t.Lo)
+	case OpZext:
+		r = a(0)
+	case OpSext:
+		r = uint64(sext64(a(0), t.Args[0].W))
+	case OpIte:
+		if a(0) != 0 {
+			r = a(1)
+		} else {
+			r = a(2)
+		}
+	case OpEq:
+		r = b2u(a(0) == a(1))
+	case OpUlt:
+		r = b2u(a(0) < a(1))
+	case OpUle:
+		r = b2u(a(0) <= a(1))
+	case OpSlt:
+		w := t.Args[0].W
+		r = b2u(sext64(a(0), w) < sext64(a(1), w))
+	case OpSle:
+		w := t.Args[0].W
+		r = b2u(sext64(a(0), w) <= sext64(a(1), w))
+	case OpBAnd:
+		r = b2u(a(0) != 0 && a(1) != 0)
+	case OpBOr:
+		r = b2u(a(0) != 0 || a(1) != 0)
+	case OpBNot:
+		r = b2u(a(0) == 0)
+	}
+	if t.W > 0 {
+		r &= mask(t.W)
+	}
+	memo[t] = r
+	return r
+}
